@@ -10,7 +10,9 @@ BADMATCHERS = ['a.b.c', 'wl_surface@5', '(x', 'a ! b ! c']
 CONCRETE = {
     'flag': [['-C'], ['--color'], ['--supress'], ['--verbose'], ['--no-color']],
     'pipe': [['-p'], ['--pipe']],
-    'load': [['-l', '/tmp/x.log'], ['--load', 'a b.log'], ['-l', 'C:\\logs\\w.log'], ['-l', 'q"uote.log']],
+    # (an empty value still selects the mode: `-l "" -r prog` is two modes)
+    'load': [['-l', '/tmp/x.log'], ['--load', 'a b.log'], ['-l', 'C:\\logs\\w.log'], ['-l', 'q"uote.log'], ['-l', ''], ['--load', ''], ['--load='],
+             ['--load=x.log']],
     'filt': [[o, m] for o in ('-f', '--filter') for m in MATCHERS],
     'filtbad': [[o, m] for o in ('-f', '--filter') for m in BADMATCHERS],
     'brk': [[o, m] for o in ('-b', '--break') for m in MATCHERS[:6]],
